@@ -33,7 +33,7 @@ ASSUMPTIONS = ["recv_time is stamped by the client and excluded from the compari
                "surface as its documented error first if the following call reports ConnectionLost; after a reset, frames "
                "still queued may or may not be delivered before ConnectionLost",
                "the local definitions are the shipped core definitions (types 62, 32, 26, 63; 9000 has no definition)"]
-REQUIRE = {"frames_delivered_in_two_pieces": 40, "frames_scripted": 1500, "returned_messages_compared": 400, "documented_errors_checked": 200, "closes_checked": 150}
+REQUIRE = {"calls_with_own_ack_option": 100, "frames_delivered_in_two_pieces": 40, "frames_scripted": 1500, "returned_messages_compared": 400, "documented_errors_checked": 200, "closes_checked": 150}
 CASE_TIMEOUT = 60
 
 KINDS = ["good", "good2", "unsub", "unknown", "unknown_unsub", "bigger", "smaller", "badver", "ver0", "signal", "ack", "big_badver", "zero_badver", "unsub_big_badver"]
@@ -103,6 +103,12 @@ def gen_cases(tier, seed):
         close = rng.choice([None, {"how": "fin", "at": None}, {"how": "rst", "at": None}])
         add(kinds, sync=rng.random() < 0.5, ack=rng.random() < 0.3, tc=(i % 5 == 4), changes=sorted(changes), close=close,
             drain_peer=rng.random() < 0.5, sub_all=rng.random() < 0.1, tmode=rng.choice(["pos", "pos", "block", "none", "long", "tiny", "tiny"]))
+    # the ack option differs from call to call (ACKNOWLEDGE frames are in the script): it is that call's business only
+    for i in range(60 if tier == "quick" else 4000):
+        k = rng.randint(3, 8)
+        kinds = [rng.choice(["ack", "ack", "good", "good2", "signal", "ver0"]) for _ in range(k)]
+        add(kinds, sync=rng.random() < 0.5, ack=False, tc=(i % 5 == 4), close=rng.choice([None, {"how": "fin", "at": None}]), drain_peer=True,
+            ack_calls=[rng.random() < 0.4 for _ in range(rng.randint(2, 5))], tmode="pos")
     # one frame of the script arrives in two pieces (split inside its header or inside its payload)
     for i in range(60 if tier == "quick" else 6000):
         k = rng.randint(1, 5)
@@ -237,13 +243,14 @@ def match(frames, outcomes, D, flags, tc, cut):
             return False
         o = outcomes[k]
         st = o["state"]
+        fl = dict(flags, ack=o.get("ack", flags["ack"]))     # (the ack option is a per-call argument)
         if o["kind"] == "none":
             # everything that was queued for this call must have been skippable
             j = i
             while j < len(frames) and j < o["avail"]:
-                if "skip" not in allowed(frames[j], st, D, flags):
+                if "skip" not in allowed(frames[j], st, D, fl):
                     why[0] = f"read_message returned None although frame #{j} ({frames[j]['kind']}) was queued and had to be " \
-                             f"{sorted(allowed(frames[j], st, D, flags))}"
+                             f"{sorted(allowed(frames[j], st, D, fl))}"
                     return False
                 j += 1
             return rec(j, k + 1)
@@ -255,7 +262,7 @@ def match(frames, outcomes, D, flags, tc, cut):
                 return False
             if cut["how"] == "fin" and o["kind"] == "lost":
                 for j in range(i, len(frames)):
-                    if "skip" not in allowed(frames[j], st, D, flags):
+                    if "skip" not in allowed(frames[j], st, D, fl):
                         why[0] = f"ConnectionLost reported before queued frame #{j} ({frames[j]['kind']}) was delivered (orderly close)"
                         return False
             return k + 1 == len(outcomes) or all(x["kind"] in ("lost", "notconnected") for x in outcomes[k + 1:])
@@ -264,11 +271,11 @@ def match(frames, outcomes, D, flags, tc, cut):
                 # the truncated frame may surface as its documented error (header complete, payload cut)
                 if cut and cut.get("partial_hdr_complete") and o["kind"] == "exc" and k + 1 < len(outcomes) and outcomes[k + 1]["kind"] == "lost":
                     pf = cut["partial_frame"]
-                    if "exc:" + o["cls"] in (allowed(pf, st, D, flags) | {"exc:" + c for c in doc_error(pf, D, flags)}):
+                    if "exc:" + o["cls"] in (allowed(pf, st, D, fl) | {"exc:" + c for c in doc_error(pf, D, fl)}):
                         if rec(j, k + 1):
                             return True
                 break
-            al = allowed(frames[j], st, D, flags)
+            al = allowed(frames[j], st, D, fl)
             if o["kind"] == "msg" and "msg" in al and same(frames[j], o, tc):
                 if rec(j + 1, k + 1):
                     return True
@@ -307,6 +314,14 @@ def same(fr, o, tc):
 
 
 # ------------------------------------------------------------------------------------------------ run
+class _Outcomes(list):
+    ack = False
+
+    def append(self, o):
+        o.setdefault("ack", self.ack)
+        super().append(o)
+
+
 def run_case(case, tier):
     from pyrtma.client import Client
     from pyrtma.exceptions import (ConnectionLost, NotConnectedError, UnknownMessageType, InvalidMessageDefinition)
@@ -385,7 +400,7 @@ def run_case(case, tier):
             C["closes_checked"] = 1
         flags = {"sync": bool(case["sync"]), "ack": bool(case["ack"])}
         changes = list(case.get("changes") or [])
-        outcomes = []
+        outcomes = _Outcomes()
         returned = 0
         for call in range(len(frames) + 6):
             while changes and changes[0][0] <= returned:
@@ -408,7 +423,13 @@ def run_case(case, tier):
                     tmo = 1e-6      # budget already spent when a queued frame is examined; data is queued, so select still fires
                 elif case.get("tmode") == "long":
                     tmo = 0.5 if call < len(frames) else 0.05
-                m = c.read_message(timeout=tmo, ack=flags["ack"], sync_check=flags["sync"])
+                ack_now = flags["ack"]
+                if case.get("ack_calls"):
+                    ack_now = bool(case["ack_calls"][call % len(case["ack_calls"])])
+                outcomes.ack = ack_now
+                if case.get("ack_calls"):
+                    C["calls_with_own_ack_option"] = C.get("calls_with_own_ack_option", 0) + 1
+                m = c.read_message(timeout=tmo, ack=ack_now, sync_check=flags["sync"])
             except ConnectionLost:
                 outcomes.append({"kind": "lost", "state": snap, "connected_after": c.connected})
                 break
@@ -435,7 +456,7 @@ def run_case(case, tier):
                              "state": snap})
             returned += 1
             # the filter itself: never a type that is not subscribed right now
-            if not snap["all"] and h.msg_type not in snap["subs"] and not (flags["ack"] and h.msg_type == W.MT_ACK):
+            if not snap["all"] and h.msg_type not in snap["subs"] and not (outcomes.ack and h.msg_type == W.MT_ACK):
                 V.append({"mech": "returned_unsubscribed_type", "detail": f"read_message returned type {h.msg_type} while subscribed to {sorted(snap['subs'])}"})
         ok, why = match(frames[:nfull], outcomes, D, flags, tc, cut)
         nmust = sum(1 for f in frames[:nfull] if "skip" not in allowed(f, {"all": st["all"], "subs": st["subs"]}, D, flags))
